@@ -129,6 +129,32 @@ def pytest_configure(config):
         _wrap("tools", tools, f)
         _wrap("laue", laue, f)
     _wrap("symmetry", symmetry, "Umis")
+    if os.environ.get("XFAB_SUITE_LOOKUPS"):
+        _wrap_lookups()
+
+
+def _wrap_lookups():
+    """record every space-group lookup (sg.sg construction) and every multiplicity call made while the suite runs"""
+    from xfab import sg, structure
+    orig_init = sg.sg.__init__
+
+    def init(self, sgno=None, sgname=None, cell_choice="standard"):
+        orig_init(self, sgno=sgno, sgname=sgname, cell_choice=cell_choice)
+        _EVENTS.append({"ev": "lookup", "sgno": None if sgno is None else int(sgno), "sgname": None if sgname is None else str(sgname),
+                        "choice0": str(cell_choice), "no": int(self.no), "nsymop": int(self.nsymop), "name": str(self.name),
+                        "cell_choice": str(self.cell_choice)})
+    sg.sg.__init__ = init
+    orig_mult = structure.multiplicity
+
+    def multiplicity(position, sgname=None, sgno=None, cell_choice="standard"):
+        r = orig_mult(position, sgname=sgname, sgno=sgno, cell_choice=cell_choice)
+        try:
+            _EVENTS.append({"ev": "multiplicity", "pos": [float(x) for x in position], "sgname": None if sgname is None else str(sgname),
+                            "sgno": None if sgno is None else int(sgno), "choice0": str(cell_choice), "result": int(r)})
+        except Exception:
+            pass
+        return r
+    structure.multiplicity = multiplicity
 
 
 def pytest_sessionfinish(session, exitstatus):
